@@ -6,6 +6,7 @@ import (
 	"strings"
 
 	"verif/mon"
+	"verif/props/c07/accept"
 )
 
 // ---------------------------------------------------------------------------------------------
@@ -15,6 +16,15 @@ import (
 var paramEntries = []string{
 	"application/json; charset=utf-8", "application/json;charset=utf-8", "text/plain; charset=utf-8",
 	"application/xml; version=1", "text/csv;header=present", "application/vnd.api+json; profile=x",
+}
+
+// owsParamEntries: entries with optional whitespace BEFORE the ';' (RFC 7231 3.1.1.1: type "/" subtype *( OWS ";" OWS parameter )).
+var owsParamEntries = []string{"text/plain ; charset=utf-8", "application/json\t;charset=utf-8", "application/xml ;version=1"}
+
+func init() {
+	if accept.JudgeOWSBeforeSemicolon { // TRIAGE-PENDING C06-2, see the flag
+		paramEntries = append(paramEntries, owsParamEntries...)
+	}
 }
 
 func pick(r *rand.Rand, l []string) string { return l[r.Intn(len(l))] }
@@ -430,6 +440,7 @@ func genBodyMode(r *rand.Rand, tcp bool) string {
 }
 
 type group struct {
+	spec       []string // spec-level list declared next to the operations' own lists
 	ops        []opSpec
 	global     bool
 	def        string
@@ -445,14 +456,45 @@ func genGroup(r *rand.Rand) *group {
 	}
 	n := 6 + r.Intn(5)
 	for i := 0; i < n; i++ {
-		g.ops = append(g.ops, opSpec{consumes: genConsumes(r), noParam: r.Intn(5) == 0})
+		op := opSpec{consumes: genConsumes(r), noParam: r.Intn(5) == 0}
+		if r.Intn(7) == 0 {
+			// a formData operation; most consume form types only
+			op.noParam, op.form = false, true
+			switch r.Intn(6) {
+			case 0:
+				op.consumes = []string{multipart}
+			case 1:
+				op.consumes = []string{urlencoded}
+			case 2:
+				op.consumes = []string{multipart, urlencoded}
+			case 3:
+				op.consumes = []string{urlencoded, "application/json"}
+			case 4:
+				op.consumes = []string{"application/json"} // a description that forgot the form types
+			}
+		}
+		g.ops = append(g.ops, op)
+	}
+	if r.Intn(10) == 0 {
+		g.spec = genConsumes(r)
+		if len(g.spec) == 0 {
+			g.spec = []string{"application/json"}
+		}
 	}
 	return g
 }
 
 func genRequest(r *rand.Rand, g *group, tcp bool) (*Case, int) {
 	i := r.Intn(len(g.ops))
-	c := &Case{Consumes: g.ops[i].consumes, Global: g.global, Default: g.def, Registered: g.registered, NoBodyParam: g.ops[i].noParam}
+	c := &Case{Consumes: g.ops[i].consumes, Global: g.global, Default: g.def, Registered: g.registered, NoBodyParam: g.ops[i].noParam, FormParam: g.ops[i].form}
+	if len(g.spec) > 0 && !g.global {
+		if len(c.Consumes) == 0 {
+			// an operation without a list of its own inherits the spec-level one
+			c.Consumes, c.Global = g.spec, true
+		} else {
+			c.SpecConsumes = g.spec
+		}
+	}
 	c.Shape = shapeOf(c.Consumes)
 	c.Method = pick(r, methods)
 	var v string
@@ -461,6 +503,12 @@ func genRequest(r *rand.Rand, g *group, tcp bool) (*Case, int) {
 		v = strings.Trim(v, " \t") // net/http trims what it sends
 	}
 	c.CT = mon.Q(v)
+	if c.HasCT && r.Intn(50) == 0 {
+		_, v2, _ := genHeader(r, c.Consumes, c.Default, c.Registered)
+		if v2 = strings.Trim(v2, " \t"); v2 != "" {
+			c.HasCT2, c.CT2 = true, mon.Q(v2)
+		}
+	}
 	c.BodyMode = genBodyMode(r, tcp)
 	if bodyModeHasBody(c.BodyMode) {
 		c.Payload = mon.Q(pick(r, payloads))
@@ -483,7 +531,7 @@ func run(m *mon.M) {
 	reported := map[string]int{}
 	for gi := 0; gi < ngroups; gi++ {
 		g := genGroup(r)
-		e, err := buildEnv(g.ops, g.global, g.def, g.registered)
+		e, err := buildEnv(g.ops, g.global, g.def, g.registered, g.spec...)
 		if err != nil {
 			m.Class("env-build-failed")
 			m.Note("env_build_error:"+firstWords(err.Error()), 1)
